@@ -58,7 +58,7 @@ const char *rsv_class_names[RSV_NCLS] = {
     [K_NET_DELAYED] = "network_messages_delayed", [K_NET_OVERTAKES] = "network_stream_overtakes", [K_NET_TEST_SKIPPED] = "collective_completions_delayed",
     [K_NET_LEFTOVER] = "network_messages_never_received", [K_CROSS_RANK_REF] = "runs_with_several_ranks", [K_PRESET_TICK] = "preset_tick_chains",
     [K_PRESET_CASCADE] = "preset_cancelled_cascade_is_minimum",
-    [K_GVT_BOUND_BY_ANTI] = "gvt_values_equal_to_a_just_extracted_anti_message"};
+    [K_GVT_BOUND_BY_ANTI] = "gvt_values_equal_to_a_just_extracted_anti_message", [K_ENDLESS] = "endless_models"};
 
 struct rt_ctx RT;
 static char PROP[8] = "C01";
@@ -227,6 +227,12 @@ static void decode_spec(struct tape *t, struct gm_spec *g)
 		if(g->goal[g->stop_lp] && g->stop_at >= g->goal[g->stop_lp])
 			g->stop_at = g->goal[g->stop_lp] - (g->goal[g->stop_lp] > 1);
 	}
+	/* C08 liveness family (no tape byte, so that saved tapes keep their meaning): about one non-stopped case in five is
+	 * "endless" - LPs never freeze, heartbeats never stop - so the run returns only because termination detection ends it */
+	if(c08 && g->stop_lp < 0 && !g->victim_nohb && !RT.free_mode && g->seed % 5 == 3) {
+		g->endless = 1;
+		g->post_goal = 0xffff;
+	}
 }
 
 static void decode_cfg(struct tape *t, struct rt_cfg *c, const struct gm_spec *g)
@@ -290,11 +296,16 @@ static void decode_cfg(struct tape *t, struct rt_cfg *c, const struct gm_spec *g
 	if(c->ranks > g->n_lps)
 		c->ranks = g->n_lps; /* a rank without LPs runs no thread and cannot take part in the reductions: outside the domain */
 	c->n_threads = 1 + t_choice(t, 3);      /* per rank */
+	int c04 = !strcmp(PROP, "C04");
+	if(c04 && t_prob(t, 128))
+		c->n_threads = 1; /* single-thread ranks: every consequence of an extracted message crosses a rank boundary or stays put */
 	c->stats = !strcmp(PROP, "C20"); /* no tape byte: saved E4 tapes keep their meaning */
 	c->core_binding = 0;
 	c->net_delay_max = (unsigned[]){0, 200, 2000, 20000, 60}[t_choice(t, 5)];
 	c->net_delay_prob = (unsigned[]){128, 30, 255}[t_choice(t, 3)];
 	c->net_test_skip = (unsigned[]){0, 128, 230}[t_choice(t, 3)];
+	if(c04 && c->net_test_skip == 0 && c->sched.seed % 3)
+		c->net_test_skip = 230; /* C04: slow collectives keep the windows of the node-level reduction open */
 	c->net_reorder = (unsigned[]){128, 0, 255}[t_choice(t, 3)];
 #endif
 }
@@ -327,6 +338,15 @@ static void on_hang(const char *why)
 	}
 	if(rsv_emit_and_exit)
 		rsv_emit_and_exit(res);
+	_exit(78);
+}
+
+/* ends the case at once with the result as it stands (used by oracles that prove a violation while the run is still going) */
+void rt_abort_case(void)
+{
+	RT.res->cls[K_STEPS_K] = rsv_steps() / 1000;
+	if(rsv_emit_and_exit)
+		rsv_emit_and_exit(RT.res);
 	_exit(78);
 }
 
@@ -390,8 +410,8 @@ int rsv_case(const uint8_t *tape, size_t len, struct rsv_result *res)
 	res->cls[K_STOP_RUNS] = g->stop_lp >= 0;
 	res->cls[K_TT_RUNS] = c->termination_time != 0;
 
-	rsv_sample(res, "lps=%u seed=%llu time=%u la=%u zd=%u sp=%u dest=%u pl=%u rules=%u hb=%u chain=%u/%u post=%u relay=%u goals=[", g->n_lps, (unsigned long long)g->seed,
-	    g->time_mode, g->lookahead_mode, g->zero_delay, g->send_prob, g->dest_mode, g->payload_mode, g->n_rules, g->hb_scale, g->chain_len, g->chain_start, g->post_goal, g->relay_budget);
+	rsv_sample(res, "lps=%u seed=%llu time=%u la=%u zd=%u sp=%u dest=%u pl=%u rules=%u hb=%u chain=%u/%u post=%u%s relay=%u goals=[", g->n_lps, (unsigned long long)g->seed,
+	    g->time_mode, g->lookahead_mode, g->zero_delay, g->send_prob, g->dest_mode, g->payload_mode, g->n_rules, g->hb_scale, g->chain_len, g->chain_start, g->post_goal, g->endless ? "(endless)" : "", g->relay_budget);
 	for(unsigned i = 0; i < g->n_lps && i < 12; i++)
 		rsv_sample(res, "%s%u%s", i ? "," : "", g->goal[i], g->t0_zero[i] ? "@0" : "");
 	rsv_sample(res, "] stop=(%d,%u) | ranks=%u net=%u/%u/%u/%u | %s thr=%u ckpt=%u gvt=%u tt=%g bind=%d stats=%d seed=%llu | sched seed=%llu sw=%u burst=%u/%u hot=%#x div=%u batch=%u | ref ev=%zu",
@@ -418,6 +438,7 @@ int rsv_case(const uint8_t *tape, size_t len, struct rsv_result *res)
 	    .committed = (CanEnd_t)gm_CanEnd};
 	res->cls[c->serial ? K_RUNS_SERIAL : c->mode == RSV_MODE_DET ? K_RUNS_DET : K_RUNS_FREE] = 1;
 	res->cls[K_THREADS_GT_LPS] = !c->serial && c->n_threads * c->ranks > g->n_lps;
+	res->cls[K_ENDLESS] = g->endless;
 	res->cls[K_PRESET_TICK] = RT.preset == 1;
 	res->cls[K_PRESET_CASCADE] = RT.preset == 2;
 	int rc = 0;
